@@ -70,6 +70,14 @@ def impl(case):
         try:
             C = IncrementalCKY(g.cnf)
             out["vals"]["cky"] = [_safe(lambda: C(x), R) for x in xs]
+            # structural: the chart columns and the outside pass of the real incremental parser (mirror model Model/IncCky.lean)
+            inc = {"cfg": common.enc_cfg(C.cfg, R), "items": []}
+            for x in xs[:3]:
+                cols = C.chart(x)
+                inc["items"].append({"x": [common.enc_sym(t) for t in x],
+                                     "chart": [[[int(i), common.enc_sym(X), common.enc_w(w, R)] for i, ch in col.items() for X, w in ch.items()] for col in cols],
+                                     "p_next": [[common.enc_sym(t), common.enc_w(w, R)] for t, w in C.p_next(x).items()]})
+            out["inccky"] = inc
         except Exception as e:  # noqa
             out["vals"]["cky"] = [{"exc": type(e).__name__, "msg": "ctor " + str(e)[:200]}] * len(xs)
         # rule permutation + injective renaming of the nonterminals: same values
@@ -157,6 +165,47 @@ def run(ctx):
             lean[i] = dict(r, deep=True)
     impl = ctx["run_impl"](cases, hashseeds, 60)
     semantic, samples = [], []
+    structural = []
+    # structural correspondence of the incremental CKY model on the real (renumbered, normal-form) grammar
+    iops, iidx = [], []
+    for c in cases:
+        r0 = impl[hashseeds[0]].get(c["id"]) or {}
+        inc = r0.get("inccky")
+        if inc:
+            for it in inc["items"]:
+                iops.append({"op": "inccky", "R": _lean_R(c["R"]), "cfg": inc["cfg"], "prefix": it["x"]})
+                iidx.append((c, it))
+    for (c, it), r in zip(iidx, ctx["lean"](iops)):
+        if "error" in r:
+            raise common.DriverError(r["error"])
+
+        def canon(entries, arity):
+            d = {}
+            for e in entries:
+                k = json.dumps(e[:arity])
+                v = e[arity]
+                if isinstance(v, bool):
+                    d[k] = d.get(k, False) or v
+                elif c["R"] == "MaxTimes":
+                    d[k] = max(d.get(k, 0), common.num(v))
+                else:
+                    d[k] = d.get(k, 0) + common.num(v)
+            return {k: v for k, v in d.items() if v not in (0, False)}
+        ok, why = True, ""
+        if len(r["chart"]) != len(it["chart"]):
+            ok, why = False, "number of columns differs"
+        else:
+            for k, (mc, ic) in enumerate(zip(r["chart"], it["chart"])):
+                a, b = canon(mc, 2), canon(ic, 2)
+                if set(a) != set(b) or any(not common.close(a[q], b[q], 1e-9, 1e-12) for q in a):
+                    ok, why = False, f"column {k}: model {sorted(a.items())[:4]} impl {sorted(b.items())[:4]}"
+                    break
+        if ok:
+            a, b = canon(r["p_next"], 1), canon(it["p_next"], 1)
+            if set(a) != set(b) or any(not common.close(a[q], b[q], 1e-9, 1e-12) for q in a):
+                ok, why = False, f"next-token weights: model {sorted(a.items())[:4]} impl {sorted(b.items())[:4]}"
+        if not ok:
+            structural.append({"op": "IncrementalCKY", "what": why, "cfg": (impl[hashseeds[0]][c["id"]]["inccky"]["cfg"]), "x": it["x"], "case_id": c["id"]})
     evaluations = 0
     nontrivial = set()
     shapes = {}
@@ -219,7 +268,7 @@ def run(ctx):
         "evaluations": evaluations, "distinct_nontrivial": len(nontrivial),
         "rule": "seeded random grammars from named shape classes x semiring x strings (sampled derivations, corruptions, random); "
                 "non-trivial = distinct (grammar, strings) with at least one string of non-zero and one of zero derivation sum",
-        "samples": samples, "traces": evaluations - len(semantic), "semantic": semantic, "structural": [],
+        "samples": samples, "traces": evaluations - len(semantic), "semantic": semantic, "structural": structural,
         "extra": {"shape_histogram": shapes, "hashseeds": hashseeds, "oracle_stats": stats, "cases": len(cases)},
         "assumptions": ["deep (IEEE, n=64) truncations of WN are compared with rtol 1e-7 and only where WN_64 and WN_32 agree to 1e-12"],
     }
